@@ -134,6 +134,15 @@ def decl_module(d, ops_wanted):
     if "Deserialize" in info.traits:
         lines.append("    #[derive(serde::Deserialize)] struct HolderT { a: TT }")
         lines.append("    #[derive(serde::Deserialize)] struct HolderI { a: Inner }")
+        # the keys of a map, whatever traits the key type has
+        lines.append("    struct Keys<K>(Vec<K>);")
+        lines.append("    impl<'de, K: serde::Deserialize<'de>> serde::Deserialize<'de> for Keys<K> { fn deserialize<DD: serde::Deserializer<'de>>(d: DD) -> Result<Self, DD::Error> { "
+                     "struct KV<K>(core::marker::PhantomData<K>); "
+                     "impl<'de, K: serde::Deserialize<'de>> serde::de::Visitor<'de> for KV<K> { type Value = Keys<K>; "
+                     "fn expecting(&self, f: &mut core::fmt::Formatter) -> core::fmt::Result { f.write_str(\"a map\") } "
+                     "fn visit_map<A: serde::de::MapAccess<'de>>(self, mut m: A) -> Result<Keys<K>, A::Error> { let mut out = Vec::new(); "
+                     "while let Some(k) = m.next_key::<K>()? { let _ = m.next_value::<serde::de::IgnoredAny>()?; out.push(k); } Ok(Keys(out)) } } "
+                     "d.deserialize_map(KV(core::marker::PhantomData)) } }")
     if info.has_validation:
         if info.custom:
             lines.append("    fn ename(e: &CErr) -> String { format!(\"errc {}\", e.0) }")
@@ -229,6 +238,10 @@ def decl_module(d, ops_wanted):
         arms.append('"de_json_map" => guard(|| { let doc = <String as Arg>::parse(arg); '
                     'let r = serde_json::from_str::<std::collections::BTreeMap<String, TT>>(&doc).ok().map(|m| m.into_iter().map(|(k, t)| format!("{}={}", k, t.into_inner().show())).collect::<Vec<_>>().join(";")); '
                     'let e = serde_json::from_str::<std::collections::BTreeMap<String, Inner>>(&doc).ok().and_then(|m| m.into_iter().map(|(k, x)| %s.map(|t| format!("{}={}", k, t.into_inner().show()))).collect::<Option<Vec<_>>>()).map(|v| v.join(";")); '
+                    'format!("{:?} ## - ## {:?}", r, e) }),' % (mko % "x"))
+        arms.append('"de_json_key" => guard(|| { let doc = <String as Arg>::parse(arg); '
+                    'let r = serde_json::from_str::<Keys<TT>>(&doc).ok().map(|k| k.0.into_iter().map(|t| t.into_inner().show()).collect::<Vec<_>>().join(";")); '
+                    'let e = serde_json::from_str::<Keys<Inner>>(&doc).ok().and_then(|k| k.0.into_iter().map(|x| %s.map(|t| t.into_inner().show())).collect::<Option<Vec<_>>>()).map(|v| v.join(";")); '
                     'format!("{:?} ## - ## {:?}", r, e) }),' % (mko % "x"))
         if "Serialize" in info.traits:
             # "ser": the value comes from the constructor; "ser_conv": from the derived conversion
